@@ -735,6 +735,8 @@ func runC16(c *Ctx) error {
 		{"drain/1200-link-wounds-badpath", c16Scn{"links", 1200, "links-retarget", "writer-badpath", "none", 0, 4}},
 		{"rearm/worker-error-root-missing", c16Scn{"files", 40, "root-missing", "writer", "none", 0, 4}},
 		{"rearm/consumer-error-early", c16Scn{"files", 1100, "first-flip", "guardian", "none", 0, 1}},
+		{"early-return/parent-asfile", c16Scn{"mixed", 420, "parent-asfile", "writer", "none", 0, 4}},
+		{"zero-files/worker-error-after-loop", c16Scn{"empty", 0, "root-missing", "guardian", "none", 0, 4}},
 	}
 	for _, x := range corpus {
 		if err := emit(x.s, x.name); err != nil {
